@@ -71,6 +71,45 @@ int main(void)
 			}
 			putchar('\n');
 			addrxlat_sys_decref(sys);
+		} else if (!strncmp(line, "osmod ", 6)) {
+			/* osmod <arch> <virt_bits|0> <rootpgt 0|1> <slot> <addr> <endoff> <meth> : the maps that
+			 * addrxlat_sys_os_init() (a client of addrxlat_map_copy) leaves in a fresh translation system are
+			 * shown, a caller assigns one range on the map of <slot>, all maps are shown again
+			 * (implementation only, no model) */
+			char arch[32]; unsigned long vb; unsigned rp, slot, i, no = 0;
+			uint64_t a, eo; long m;
+			addrxlat_opt_t opts[4]; addrxlat_sys_t *sys; addrxlat_status st, st2 = -1;
+			addrxlat_fulladdr_t root = { 0, ADDRXLAT_KPHYSADDR };
+			addrxlat_map_t *map;
+			if (sscanf(line + 6, "%31s %lu %u %u %" SCNu64 " %" SCNu64 " %ld", arch, &vb, &rp, &slot, &a, &eo, &m) != 7
+			    || slot >= ADDRXLAT_SYS_MAP_NUM) { puts("> bad-op"); continue; }
+			if (!lctx) lctx = addrxlat_ctx_new();
+			sys = addrxlat_sys_new();
+			addrxlat_opt_arch(&opts[no++], arch);
+			addrxlat_opt_os_type(&opts[no++], "linux");
+			if (vb) addrxlat_opt_virt_bits(&opts[no++], vb);
+			if (rp) addrxlat_opt_rootpgt(&opts[no++], &root);
+			addrxlat_ctx_clear_err(lctx);
+			alloc_reset();
+			st = addrxlat_sys_os_init(sys, lctx, no, opts);
+			printf("> osmod %d", (int)st);
+			for (i = 0; i < ADDRXLAT_SYS_MAP_NUM; ++i) {
+				printf(" |");
+				showslot(addrxlat_sys_get_map(sys, i));
+			}
+			map = addrxlat_sys_get_map(sys, slot);
+			if (map) {
+				addrxlat_range_t r = { eo, m };
+				st2 = addrxlat_map_set(map, a, &r);
+			}
+			printf(" # %d", (int)st2);
+			for (i = 0; i < ADDRXLAT_SYS_MAP_NUM; ++i) {
+				printf(" |");
+				showslot(addrxlat_sys_get_map(sys, i));
+			}
+			putchar('\n');
+			addrxlat_ctx_clear_err(lctx);
+			addrxlat_sys_decref(sys);
 		} else if (!strncmp(line, "layout ", 7)) {
 			/* layout <k> <n> {<first> <last> <meth> <direct 0|1>}*n : sys_set_layout() of the table into slot
 			 * KV_PHYS with the k-th allocation failing (k = 0: none) */
